@@ -2,6 +2,7 @@ package main
 
 import (
 	"fmt"
+	"go/ast"
 	"go/token"
 	"go/types"
 
@@ -41,6 +42,7 @@ func (fr *Frame) exec(in ssa.Instruction) {
 			fr.set(i, &Val{T: "0", S: SInt, Typ: i.Type()}) // descriptor-only
 			return
 		}
+		fr.checkInteriorEscape(i, deref(i.Type()))
 		base := fr.val(i.X)
 		t := vc.faddr(fieldHeapName(st, i.Field), base.T)
 		fr.set(i, &Val{T: vc.define("fa", SInt, t), S: SInt, Typ: i.Type()})
@@ -438,7 +440,49 @@ func (fr *Frame) execIndexAddr(i *ssa.IndexAddr) {
 		fr.nilCheck(i.X, i.Pos(), "arrayindex")
 		fr.safety("bounds", "arrayindex", i.Pos(), and(sx("<=", "0", idx.T), sx("<", idx.T, num(at.Len()))))
 	}
+	fr.checkInteriorEscape(i, deref(i.Type()))
 	fr.set(i, &Val{T: "0", S: SInt, Typ: i.Type()}) // descriptor only; resolved by locOf
+}
+
+// checkInteriorEscape: the address of a non-struct field / slice element may only be
+// used for loads, stores, further addressing and sync / sync/atomic calls. Anything
+// else (stored, passed, returned, captured) is outside the memory model: the function
+// is reported as unsupported, never as proved.
+func (fr *Frame) checkInteriorEscape(v ssa.Value, elem types.Type) {
+	if isStruct(elem) {
+		if _, isIdx := v.(*ssa.IndexAddr); !isIdx {
+			return // struct-valued fields are flattened: their address is a genuine ref
+		}
+	}
+	refs := v.Referrers()
+	if refs == nil {
+		return
+	}
+	for _, r := range *refs {
+		switch u := r.(type) {
+		case *ssa.DebugRef:
+		case *ssa.UnOp:
+		case *ssa.Store:
+			if u.Val == v {
+				fr.vc.unsupported("interior pointer stored in " + relFuncName(fr.fn))
+			}
+		case *ssa.FieldAddr, *ssa.IndexAddr:
+		case *ssa.Slice:
+		case ssa.CallInstruction:
+			c := u.Common()
+			if callee := c.StaticCallee(); callee != nil {
+				if p := callee.Pkg; p != nil && (p.Pkg.Path() == "sync" || p.Pkg.Path() == "sync/atomic") {
+					continue
+				}
+				if callee.Signature.Recv() != nil && isStruct(elem) {
+					continue
+				}
+			}
+			fr.vc.unsupported("interior pointer passed to a call in " + relFuncName(fr.fn))
+		default:
+			fr.vc.unsupported(fmt.Sprintf("interior pointer escapes (%T) in %s", r, relFuncName(fr.fn)))
+		}
+	}
 }
 
 func (fr *Frame) execIndex(i *ssa.Index) {
@@ -508,7 +552,7 @@ func (fr *Frame) execLookup(i *ssa.Lookup) {
 	has := vc.define("has", SBool, fr.mapHas(fr.st, x.T, mh, idx.T))
 	raw := fr.mapGet(fr.st, x.T, mh, idx.T)
 	v := fr.mkVal(vc.define("mv", mh.vs, ite(has, raw, fr.zero(mh.vt))), mh.vt)
-	vc.assume(fr.reach, fr.wf(v.T, mh.vt))
+	vc.assume(fr.reach, fr.wfAlloc(v.T, mh.vt, vc.allocBound(vc.heap(fr.st, mh.val, mh.valS), fr.alloc()), 0))
 	if i.CommaOk {
 		fr.set(i, &Val{S: "Tuple", Typ: i.Type(), Tup: []*Val{v, fr.mkVal(has, types.Typ[types.Bool])}})
 	} else {
@@ -904,4 +948,42 @@ func (fr *Frame) execGo(i *ssa.Go) {
 	// goroutine start: precondition of the callee would be asserted here; the
 	// callee is verified on its own. No effect on the current state.
 	fr.vc.note("go statement in %s: spawned function verified separately", fr.fn)
+	c := &i.Call
+	if c.IsInvoke() {
+		return
+	}
+	callee := c.StaticCallee()
+	if callee == nil {
+		return
+	}
+	fc := fr.vc.eng.contractOf(callee)
+	if fc == nil || len(fc.Requires) == 0 {
+		return
+	}
+	var args []*Val
+	for _, a := range c.Args {
+		args = append(args, fr.val(a))
+	}
+	vars := map[string]*Val{}
+	for k, p := range callee.Params {
+		if k < len(args) {
+			vars[p.Name()] = args[k]
+		}
+	}
+	n := 6000 + len(fr.vc.cmds)
+	env := &SpecEnv{fr: fr, vars: vars, cur: fr.st, old: fr.st, pkg: pkgOf(callee), nq: &n}
+	p := fr.pos(i.Pos())
+	for k, cl := range fc.Requires {
+		if call, ok := cl.Expr.(*ast.CallExpr); ok {
+			if id, ok := call.Fun.(*ast.Ident); ok && (id.Name == "held" || id.Name == "rheld") {
+				continue // a new goroutine starts with an empty lockset
+			}
+		}
+		t, err := fr.evalSpecBool(cl.Expr, env)
+		if err != nil {
+			fr.vc.specError(fr, cl, err)
+			continue
+		}
+		fr.vc.oblige("pre", fmt.Sprintf("%s/pre#%d@go %s#%s", relFuncName(fr.vc.fn), k+1, relFuncName(callee), hash4(fr.vc.eng.srcLine(p))), p, cl.Text, fr.reach, t, fr.vc.callerProps(cl))
+	}
 }
